@@ -263,3 +263,99 @@ def _collect_ids(node, out=None):
         for v in node:
             _collect_ids(v, out)
     return out
+
+
+# ---------------------------------------------------------------- C15: reuse and interleaving
+
+PREV_DOCS = {
+    "accepted": ["Feature: p\n", "  Scenario: q\n", "    Given r\n"],
+    "rejected": ["Feature: p\n", "  junk\n", "  Scenario: q\n", "    | x |\n", "Feature: again\n"],
+    "french": ["# language: fr\n", "Fonctionnalité: p\n", "  Scénario: q\n", "    Soit r\n", "    Alors s\n"],
+    "open-docstring": ["Feature: p\n", "  Scenario: q\n", "    Given r\n", "        ```xml\n", "        inside\n"],
+    "open-docstring2": ["Feature: p\n", "  Background:\n", "    Given r\n", '      """\n', "   x\n"],
+    "bad-tag": ["@a b\n", "Feature: p\n"],
+    "ragged": ["Feature: p\n", "  Scenario: q\n", "    Given r\n", "      | a | b |\n", "      | c |\n"],
+    "comments": ["# c1\n", "Feature: p\n", "  # c2\n", "  Scenario: q\n", "    Given r\n", "# c3\n"],
+}
+HISTORY = param("history", ["french", "open-docstring", "rejected"])
+
+
+def reuse_matches_fresh(a: str, b: str, c: str) -> bool:
+    """
+    pre: _holes_ok(SHAPE, a, b, c)
+    post: _
+    """
+    # one Parser, one TokenMatcher, one AstBuilder (and one id generator) parse a history of other documents - accepted,
+    # rejected, switching dialect, ending inside a doc string - and then this one: result == fresh instances, up to the id offset
+    idgen = IdGenerator()
+    parser = Parser(AstBuilder(idgen))
+    matcher = TokenMatcher()
+    for name in HISTORY:
+        try:
+            parser.parse(render.scanner(PREV_DOCS[name]), matcher)
+        except CompositeParserException:
+            pass
+    global START
+    saved = START
+    START = idgen._id_counter
+    try:
+        w, exp = build(SHAPE, a, b, c)
+    finally:
+        START = saved
+    got = parser.parse(render.scanner(w.lines), matcher)
+    sym.reach("parsed")
+    return astgen.same(got, exp) and idgen._id_counter == w.n
+
+
+class _Hook:
+    """scanner wrapper: before handing out line number `at`, run `action` (another parse) to completion"""
+
+    def __init__(self, inner, at, action):
+        self.inner = inner
+        self.at = at
+        self.action = action
+        self.n = 0
+
+    def read(self):
+        self.n += 1
+        if self.n == self.at:
+            self.action()
+        return self.inner.read()
+
+
+def nested_parses(i: int, j: int, a: str) -> bool:
+    """
+    pre: 1 <= i <= 9 and 1 <= j <= 6
+    pre: len(a) <= param("maxlen", 1) and _plain(a)
+    post: _
+    """
+    # schedule as solver variables, in the form a thread-free engine allows: while parser A waits for its i-th line, parser B
+    # (own Parser instance, default matcher) parses its whole document, and while B waits for its j-th line a third one (C) runs.
+    # Every result must equal the result the document gives alone.
+    wa, expa = build(SHAPE, a, "b", "c")
+    lines_b = PREV_DOCS[param("other", "open-docstring")]
+    lines_c = PREV_DOCS["french"]
+    alone_b = _outcome(lambda: Parser().parse(render.scanner(lines_b)))
+    alone_c = _outcome(lambda: Parser().parse(render.scanner(lines_c)))
+    res = {}
+
+    def run_c():
+        res["c"] = _outcome(lambda: Parser().parse(render.scanner(lines_c)))
+
+    def run_b():
+        res["b"] = _outcome(lambda: Parser().parse(_Hook(render.scanner(lines_b), j, run_c)))
+
+    got = _outcome(lambda: Parser().parse(_Hook(render.scanner(wa.lines), i, run_b)))
+    if "b" not in res:
+        return True   # document A has fewer than i lines
+    sym.reach("interleaved")
+    if "c" in res and not astgen.same(res["c"], alone_c):
+        return False
+    return astgen.same(res["b"], alone_b) and astgen.same(got, ("ok", expa))
+
+
+def _outcome(f):
+    try:
+        return ("ok", f())
+    except CompositeParserException as e:
+        return ("errors", [str(x) for x in e.errors])
